@@ -174,7 +174,59 @@ def reported_measures(case, X, y, sel, viol, ref):
                 viol.append({"kind": "measure-differs", "what": f"{name} of {c} is reported as {float(v)!r}, recomputation gives {exp}"})
 
 
+def run_multi(case):
+    """two association measures for the quantitative features of a ClassificationSelector (Kruskal H then R, the chain kept
+    alive by thresh_kruskal=+big), thresh_corr=1: every measure contributes its own n_best"""
+    from AutoCarver.selectors import ClassificationSelector
+    from AutoCarver.selectors.measures import R_measure, kruskal_measure
+
+    X, y = build_frame(case)
+    res = {"violations": [], "sample": dict(case)}
+    viol = res["violations"]
+    cols = list(case["qcols"])
+    sel = ClassificationSelector(case["n_best"], quantitative_features=cols, quantitative_measures=[kruskal_measure, R_measure], thresh_kruskal=1e18, thresh_corr=1)
+    got = S.quiet(sel.select, X.copy(), y.copy())
+    yl = y.tolist()
+    ms = []
+    for fn in (S.kruskal_by_target, S.eta_by_target):
+        m = {}
+        for c in cols:
+            col = X[c].tolist()
+            m[c] = fn(col, yl) if S.usable(col) else None
+        ms.append(m)
+    valid = [c for c in cols if all(m[c] is not None and m[c] == m[c] for m in ms)]
+    if len(set(got)) != len(got) or any(g not in valid for g in got):
+        viol.append({"kind": "multi:invalid", "what": f"two measures: returned {got}, valid candidates {valid}"})
+        res["outcome"] = "multi:invalid"
+        return res
+    n_best = case["n_best"]
+    if len(got) > n_best * len(ms):
+        viol.append({"kind": "multi:too-many", "what": f"two measures: {len(got)} features returned for n_best={n_best} per measure"})
+    last = ms[-1]
+    for a, b in zip(got, got[1:]):
+        if last[a] < last[b] - TOL * max(1, abs(last[b])):
+            viol.append({"kind": "multi:order", "what": f"two measures: not ordered by the last measure: {a}={last[a]:.5g} before {b}={last[b]:.5g}"})
+            break
+    names = ["kruskal", "R"]
+    for mi, m in enumerate(ms):
+        for f in valid:
+            if f in got:
+                continue
+            better = [g for g in got if m[g] >= m[f] - TOL * max(1, abs(m[f]))]
+            if len(better) < n_best:
+                viol.append({"kind": f"multi:omitted-under-{names[mi]}", "what": f"two measures: {f} ({names[mi]}={m[f]:.5g}) is left out although only {len(better)} returned features are at least as good under {names[mi]} (n_best={n_best}); returned {got}"})
+                break
+    distinct_rank = sorted(valid, key=lambda c: -ms[0][c]) != sorted(valid, key=lambda c: -ms[1][c])
+    res["outcome"] = f"multi:{case['target']}:{'rankings-differ' if distinct_rank else 'same-ranking'}:{len(got)}"
+    if distinct_rank:
+        res["nontrivial"] = repr(sorted((k, str(v)) for k, v in case.items()))
+    res["sample"]["returned"] = got
+    return res
+
+
 def run_case(case):
+    if case.get("measures"):
+        return run_multi(case)
     X, y = build_frame(case)
     X0, y0 = X.copy(deep=True), y.copy(deep=True)
     res = {"violations": [], "sample": dict(case)}
@@ -272,6 +324,13 @@ def enumerate_cases(tier, seed):
             # mixed types in one call
             for qs, ls in zip(qsets[:: 7], itertools.cycle(lsets[:: 5])):
                 cases.append({"selector": selector, "target": target, "qcols": list(qs), "lcols": list(ls), "n_best": 2, "thresh_corr": 0.9})
+            # two measures (Kruskal H and R) on columns whose rankings differ; thresh_corr=1
+            if selector == "classification":
+                mq = ["noisy1", "noisy2", "halfnan", "strongnan", "strongnan2", "indep2", "copy"]
+                for ksz in (3, 4):
+                    for qs in itertools.combinations(mq, ksz):
+                        for n_best in (1, 2):
+                            cases.append({"selector": selector, "target": target, "qcols": list(qs), "lcols": [], "n_best": n_best, "thresh_corr": 1, "measures": ["kruskal", "R"]})
             # colsample < 1: every outcome of shuffle (explored through the seam)
             for qs in qsets[:: 9 if tier == "quick" else 4]:
                 for n_best in (2, 3):
